@@ -228,7 +228,7 @@ func (m *closeMon) Observe(h *Hand, t *Trans) *vlib.Violation {
 			return vlib.V("C05", "late-close", "%d turns in the %s round since the last wager increase / all-in, table has %d seats", m.turns, m.street, n)
 		}
 	}
-	if ev == "RoundClosed" && pre.Status.CurrentEvent != "RoundClosed" && aliveCount(post) >= 2 {
+	if ev == "RoundClosed" && (pre.Status.CurrentEvent != "RoundClosed" || pre.Status.Round != post.Status.Round) && aliveCount(post) >= 2 {
 		needTurn := m.opened || movableCount(post) >= 2
 		for _, q := range post.Players {
 			if q.Fold || q.StackSize == 0 {
@@ -315,7 +315,7 @@ func (m *progressMon) Observe(h *Hand, t *Trans) *vlib.Violation {
 			if !t.Unchanged() {
 				return vlib.V("C06", "accepts-after-close/changed", "%s on a closed hand changed the state (err=%v)", t.Op, t.Err)
 			}
-			if t.Err == nil {
+			if t.Err == nil && t.Op.A != "resume" {
 				return vlib.V("C06", "accepts-after-close", "%s on a closed hand returned no error", t.Op)
 			}
 			return nil
